@@ -6,7 +6,7 @@
 (* ====================================================================== *)
 From Coq Require Import String Ascii List ZArith QArith Bool Arith Lia Permutation.
 From TK Require Import Cli_Model Cli_Spec Cli_Argv_Model Cli_Argv_Spec Cli_Proof_Decide Cli_Proof_Main Cli_Proof_Exit
-  Cli_Proof_Argv Cli_Proof_Perm Cli.
+  Cli_Proof_Argv Cli_Proof_Perm Cli_Proof_Files Cli_Proof_Pre Cli_Proof_Shape Cli.
 Import ListNotations.
 Local Close Scope Q_scope.
 Local Open Scope string_scope.
@@ -86,15 +86,19 @@ Section GenMain.
   Variable lib : list (string * value) -> bool -> list (list V)
                  -> option (list (list V) * option (list (list V) * list V)).
 
-  Definition gen_main := cli_main V parse print lib gen_tables gen_read_loop.
+  Definition gen_main := cli_main V parse print lib gen_tables gen_read_loop gen_read_check.
 
   Lemma gen_read_loop_doc : gen_read_loop = LoopGetline.
   Proof. vm_compute. reflexivity. Qed.
 
+  Lemma gen_read_check_doc : gen_read_check = CheckEveryRow.
+  Proof. vm_compute. reflexivity. Qed.
+
   Lemma gen_main_doc : forall a content,
-    gen_main a content = cli_main V parse print lib doc_tables LoopGetline a content.
+    gen_main a content = cli_main V parse print lib doc_tables LoopGetline CheckEveryRow a content.
   Proof.
-    intros a content. unfold gen_main, cli_main. rewrite gen_decide_doc, gen_catch_code, gen_read_loop_doc.
+    intros a content. unfold gen_main, cli_main.
+    rewrite gen_decide_doc, gen_catch_code, gen_read_loop_doc, gen_read_check_doc.
     reflexivity.
   Qed.
 
@@ -180,4 +184,38 @@ Proof.
   rewrite gen_options_doc.
   destruct (scan rd doc_options argv []); [apply gen_decide_spec|].
   rewrite gen_catch_code. reflexivity.
+Qed.
+
+(* ---- the shape tables of util.hpp (read_data's length test, matrix_from_callback's loops) ---- *)
+Lemma gen_shapes : gen_read_loop = LoopGetline /\ gen_read_check = CheckEveryRow /\ gen_mfc = MfcLoops InitUninit 0.
+Proof. vm_compute. auto. Qed.
+
+(* the length test read from the source rejects every ragged matrix, whatever the lengths add up to *)
+Theorem gen_unequal_rows : forall (V : Type) (r0 : list V) rows i r,
+  nth_error (r0 :: rows) i = Some r -> length r <> length r0 ->
+  exists k, to_matrix_with V gen_read_check (r0 :: rows) = Some (RWrong k).
+Proof.
+  intros V r0 rows i r Hn Hl. destruct gen_shapes as [_ [-> _]].
+  exact (every_row_rejects_ragged V r0 rows i r Hn Hl).
+Qed.
+
+(* ... for the file itself: any content one of whose non-empty lines has a different number of parsable
+   tokens than the first makes main() fail, whatever the options *)
+Theorem gen_read_ragged : forall (V : Type) (parse : string -> option V) d content r0 rows i r,
+  parse_rows V parse d (lines_fixed content) = r0 :: rows ->
+  nth_error (r0 :: rows) i = Some r -> length r <> length r0 ->
+  exists k, read_with V parse gen_read_loop gen_read_check d content = Some (RWrong k).
+Proof.
+  intros V parse d content r0 rows i r Hrows Hn Hl.
+  destruct gen_shapes as [-> [-> _]]. cbn [read_with lines_with]. rewrite Hrows.
+  exact (every_row_rejects_ragged V r0 rows i r Hn Hl).
+Qed.
+
+(* the loops read from the source fill every cell with cb(min, max) *)
+Theorem gen_mfc_value : forall (S : Type) (cb : nat -> nat -> S) (zero : S) N a b t,
+  a < N -> b < N -> mfc_of_shape S cb zero gen_mfc N = Some t ->
+  t a b = Some (cb (Nat.min a b) (Nat.max a b)).
+Proof.
+  intros S cb zero N a b t Ha Hb H. destruct gen_shapes as [_ [_ Hm]]. rewrite Hm in H.
+  exact (mfc_doc_shape_value S cb zero N a b t Ha Hb H).
 Qed.
